@@ -988,3 +988,32 @@ TWINS["C19"] = [
     TW("softmax-arg-reordered", (ER, "new_pi = torch.softmax(q_action + torch.log(pi0), -1)", "new_pi = torch.softmax(torch.log(pi0) + q_action, -1)")),
     TW("rhs-inline", (ER, "v = torch.linalg.solve(eye - discount_rate*mp, s_rf_ent)", "v = torch.linalg.solve(eye - mp*discount_rate, s_rf - s_ent*entropy_weight)")),
 ]
+
+# ----------------------------------------------------------------------------------- C17
+RM = A + "rmax.py"
+MUTANTS["C17"] = [
+    M("revert-F15-index-space", ["TEN-6"],
+      (RM, "self.n_states = len(mdp.state_list)", "self.n_states = len(mdp.reachable_states())")),
+    M("count-guard-le", ["SIM-8"],
+      (RM, "if self.s_a_counts[state, action] < self.m:", "if self.s_a_counts[state, action] <= self.m:")),
+    M("counter-of-other-pair", ["SIM-8"],
+      (RM, "            self.s_a_counts[state, action] += 1\n", "            self.s_a_counts[next_state, action] += 1\n")),
+    M("update-unmasked", ["VI-1"],
+      (RM, "            self.q_matrix[mask] = new_q[mask]", "            self.q_matrix[:] = new_q")),
+    M("optimistic-constant-no-horizon", ["ALG-4"],
+      (RM, "self.q_matrix = np.ones((self.n_states, self.n_actions)) * self.rmax * 1/(1-mdp.discount_rate)", "self.q_matrix = np.ones((self.n_states, self.n_actions)) * self.rmax")),
+    M("backup-no-discount", ["VI-1"],
+      (RM, 'new_q = empirical_reward_mat + gamma * np.einsum("san,n->sa", empirical_transition_mat, v)', 'new_q = empirical_reward_mat + np.einsum("san,n->sa", empirical_transition_mat, v)')),
+    M("observe-args-swapped", ["OBS-1"],
+      (RM, "self._observe(mdp.state_list.index(s), ai, r, mdp.state_list.index(ns), gamma=mdp.discount_rate)", "self._observe(mdp.state_list.index(ns), ai, r, mdp.state_list.index(s), gamma=mdp.discount_rate)")),
+    M("reward-args", ["SIM-3", "ARG"],
+      (RM, "                r = mdp.reward(s, a, ns)\n                # update\n                self._observe", "                r = mdp.reward(ns, a, s)\n                # update\n                self._observe")),
+    M("no-advance", ["SIM-4"],
+      (RM, "                event_listener.end_of_timestep(locals())\n                s = ns\n", "                event_listener.end_of_timestep(locals())\n")),
+    M("mask-strict", ["VI-1"],
+      (RM, "        mask = self.s_a_counts >= self.m", "        mask = self.s_a_counts > 0")),
+]
+TWINS["C17"] = [
+    TW("constant-rewritten", (RM, "self.q_matrix = np.ones((self.n_states, self.n_actions)) * self.rmax * 1/(1-mdp.discount_rate)", "self.q_matrix = self.rmax * np.ones((self.n_states, self.n_actions)) / (1-mdp.discount_rate)")),
+    TW("backup-commuted", (RM, 'new_q = empirical_reward_mat + gamma * np.einsum("san,n->sa", empirical_transition_mat, v)', 'new_q = np.einsum("san,n->sa", empirical_transition_mat, v) * gamma + empirical_reward_mat')),
+]
